@@ -443,6 +443,8 @@ class Graph:
             for b_ in bred:
                 self.ctx.ev()
                 rs_, _rl = util.reach(b_, util.spec_bases)
+                if self.conflated(b_, _rl):
+                    continue          # (an ancestry holding two equal-keyed interfaces: one interface to the library, DESIGN 7.2)
                 if {id(x) for x in b_.__sro__} != {id(b_)} | rs_ | {id(Interface)}:
                     self.ctx.violation('dependent-born-during-a-notification-is-stale', {'of': n.name, 'sro': [self.name_of(x) for x in b_.__sro__]})
             self.after_mutation(idx, before, how)
